@@ -69,6 +69,7 @@ func runC02(c *Ctx) {
 	ruleReplayUnconditional(c, "C02.30")
 	ruleNoLoopVarCapture(c, "C02.31", "storage", "engine")
 	ruleLSNMonotone(c, "C02.32")
+	ruleLogWritesReachFile(c, "C02.33")
 	ruleErrorsNotDropped(c, "C02.16", "storage.(*BTree).insert", "storage.(*RelationService).Insert", "storage.(*RelationService).MarkDeleted", "storage.(*RelationService).FlushWALBatch")
 }
 
@@ -1364,7 +1365,6 @@ func (g *Graph) blockAfter(rs *ast.RangeStmt) *cfg.Block {
 	}
 	return g.Entry()
 }
-
 
 // ifAround returns the if statement whose then-block directly contains st.
 func ifAround(root ast.Node, st ast.Stmt) *ast.IfStmt {
